@@ -14,9 +14,17 @@ template<class F> Death death_test(F&& f) {
 	char errpath[] = "/dev/shm/vp_death_XXXXXX";
 	int efd = mkstemp(errpath);
 	std::fflush(nullptr);
-	pid_t pid = fork();
-	if(pid == 0) { if(efd >= 0) { dup2(efd, 2); } alarm(20); f(); _exit(0); }
-	int st = 0; waitpid(pid, &st, 0);
+	pid_t pid = vp::fork_retry();
+	if(pid < 0) { if(efd >= 0) { close(efd); unlink(errpath); } throw vp::Inconclusive{"fork failed"}; }
+	if(pid == 0) {
+		// (in fork mode this process inherits the case-runner's crash reporting: the expected abort of a death test must not be reported through it)
+		vp::detach_crash_reporting();
+		if(efd >= 0) { dup2(efd, 2); } alarm(20); f(); _exit(0);
+	}
+	int st = 0; pid_t wr; do { wr = waitpid(pid, &st, 0); } while(wr < 0 && errno == EINTR);
+	if(wr != pid) { if(efd >= 0) { close(efd); unlink(errpath); } throw vp::Inconclusive{"waitpid failed"}; }
+	if(WIFSIGNALED(st) && WTERMSIG(st) == SIGALRM) { if(efd >= 0) { close(efd); unlink(errpath); } throw vp::Inconclusive{"the forked death test did not finish within 20 s (load)"}; }
+	if(efd < 0) { throw vp::Inconclusive{"no scratch file for the child's stderr"}; }
 	Death d; d.status = st;
 	if(efd >= 0) { char buf[4096]; ssize_t k; lseek(efd, 0, SEEK_SET); while((k = read(efd, buf, sizeof buf)) > 0 && d.err.size() < 6000) { d.err.append(buf, static_cast<std::size_t>(k)); } close(efd); unlink(errpath); }
 	d.sigabrt = WIFSIGNALED(st) && WTERMSIG(st) == SIGABRT;
